@@ -10,6 +10,7 @@ Bounded-exhaustive input enumeration with a work meter:
      corpus; only the documented error may come out.
 """
 
+import asyncio
 import itertools
 import json
 import sys
@@ -536,6 +537,124 @@ def amp_jobs(tier):
     return jobs
 
 
+# ------------------------------------------------------------------ server applications reading a hostile stream
+READER_STYLES = ['while-readline', 'async-for', 'readuntil', 'read-n', 'readexactly']
+
+
+def reader_run(style, window, total, newline_at):
+    """a server handler reads its stdin with each documented stream idiom while the peer sends `total` bytes
+    with a single newline at `newline_at` (None: none at all) -- more than the receive window without a
+    separator -- and then EOF.  The handler must terminate having seen every byte; the loop must not spin."""
+    seen = {'n': 0, 'calls': 0, 'done': False}
+
+    async def handler(process):
+        rd = process.stdin
+        try:
+            if style == 'while-readline':
+                while not rd.at_eof():
+                    seen['calls'] += 1
+                    seen['n'] += len(await rd.readline())
+            elif style == 'async-for':
+                while not rd.at_eof():
+                    async for line in rd:
+                        seen['calls'] += 1
+                        seen['n'] += len(line)
+            elif style == 'readuntil':
+                while not rd.at_eof():
+                    seen['calls'] += 1
+                    try:
+                        seen['n'] += len(await rd.readuntil(b'\n'))
+                    except asyncio.IncompleteReadError as exc:
+                        seen['n'] += len(exc.partial)
+            elif style == 'read-n':
+                while not rd.at_eof():
+                    seen['calls'] += 1
+                    seen['n'] += len(await rd.read(7))
+            else:
+                while not rd.at_eof():
+                    seen['calls'] += 1
+                    try:
+                        seen['n'] += len(await rd.readexactly(window + 3))
+                    except asyncio.IncompleteReadError as exc:
+                        seen['n'] += len(exc.partial)
+        finally:
+            seen['done'] = True
+            process.exit(0)
+    w = H.SrvWorld(sopts=dict(process_factory=handler, encoding=None, window=window, max_pktsize=max(8, window // 2)))
+    w.loop.write_budget = 20 * total + 4000
+    rp = w.rp
+    viol = []
+    data = bytearray(b'x' * total)
+    if newline_at is not None and newline_at < total:
+        data[newline_at] = 10
+    try:
+        w.kex().auth()
+        remote, rwin, rpkt = w.open_session(request=None, window=2 ** 20)
+        rp.send(rp.channel_request(remote, 'exec', True, R.string('cmd')))
+        w.flush()
+        off = 0
+        credit = window
+        rounds = 0
+        while off < total and rounds < 10 * total + 100:
+            rounds += 1
+            # honour the window the server advertises: send what it allows, then look for adjustments
+            adj = sum(R.Reader(p, 5).u32() for t, p in rp.inbox if t == R.MSG_CHANNEL_WINDOW_ADJUST)
+            allowed = window + adj - off
+            n = min(allowed, rpkt, total - off, max(8, window // 2))
+            if n <= 0:
+                w.flush()
+                adj2 = sum(R.Reader(p, 5).u32() for t, p in rp.inbox if t == R.MSG_CHANNEL_WINDOW_ADJUST)
+                if adj2 == adj:
+                    break                   # the receiver stopped granting window
+                continue
+            rp.send(rp.channel_data(remote, bytes(data[off:off + n])))
+            off += n
+            w.flush()
+        rp.send(R.byte(R.MSG_CHANNEL_EOF) + R.u32(remote))
+        w.flush()
+        if off < total:
+            viol.append(('reader-stalled', 'the server stopped granting window after %d of %d bytes although its '
+                         'application keeps reading (%s)' % (off, total, style)))
+        elif not seen['done']:
+            viol.append(('reader-never-finished', '%s handler still running after EOF: saw %d of %d bytes in %d calls'
+                         % (style, seen['n'], total, seen['calls'])))
+        elif seen['n'] != total:
+            viol.append(('reader-lost-data', '%s handler saw %d of %d bytes' % (style, seen['n'], total)))
+        if seen['calls'] > 4 * total + 50:
+            viol.append(('reader-spins', '%d read calls for %d bytes' % (seen['calls'], total)))
+    except Livelock as exc:
+        viol.append(('livelock', '%s: %s' % (style, exc)))
+    except R.RefError:
+        pass
+    try:
+        viol += hygiene(w.loop, w.conn, w.owner)
+        return viol
+    finally:
+        w.close()
+
+
+def reader_worker(job):
+    acc = core.Acc()
+    for style, window, total, nl in job:
+        viol = reader_run(style, window, total, nl)
+        acc.add(core.digest(('reader', style, window, total, nl)), transitions=total,
+                sample={'reader': style, 'window': window, 'bytes': total, 'newline_at': nl} if nl is None and total == 3 * window else None)
+        for k, d in viol:
+            acc.violation('reader:%s:%s' % (k, style), '%s ; window=%d total=%d newline_at=%r' % (d, window, total, nl),
+                          {'kind': 'reader', 'job': [style, window, total, nl]})
+    return acc
+
+
+def reader_jobs():
+    cases = []
+    for style in READER_STYLES:
+        for window in (16, 64):
+            for total in (window - 1, window, window + 1, 3 * window, 3 * window + 5):
+                for nl in (None, 0, window - 1, window, total - 1):
+                    cases.append((style, window, total, nl))
+    return [cases[i::16] for i in range(16)]
+
+
 # ------------------------------------------------------------------ main
 def main(tier, seed):
     t0 = core.now()
@@ -548,6 +667,7 @@ def main(tier, seed):
     acc.merge(core.pmap(msg_worker, core.rotate(mj, seed)))
     acc.merge(core.pmap(special_worker, ['dropbear']))
     acc.merge(core.pmap(amp_worker, core.rotate(amp_jobs(tier), seed)))
+    acc.merge(core.pmap(reader_worker, reader_jobs()))
     n_b = acc.evaluations - n_a
     import c10_parsers
     acc.merge(c10_parsers.run(tier, seed))
@@ -558,7 +678,9 @@ def main(tier, seed):
             'to 0/1/2^31-1/2^31/2^32-1, byte replacements} sent in a live dialogue, after which the '
             'application keeps writing on its channels; (b2) output amplification: thousands of small data '
             'packets of each editing/control symbol into a pty or plain shell session with and without a '
-            'nearly full input line; (c) parser corpus x every truncation and single-byte '
+            'nearly full input line; (b3) a server application reading its stdin with each documented stream idiom '
+            '(readline loop, async for, readuntil, read(n), readexactly) while the peer sends 5 sizes around and '
+            'beyond the receive window with the only newline at 5 positions or nowhere; (c) parser corpus x every truncation and single-byte '
             'replacement.  Oracle: per-execution transport-write budget and wall-clock watchdog hold, no '
             'exception reaches the loop handler, a closed connection notifies its owner exactly once, parsers '
             'raise only their documented error' % (len(srv_scripts()), len(cli_scripts())))
@@ -580,6 +702,8 @@ def replay(rep):
         acc.violations = [v for v in full.violations if v['replay'].get('label') == r['label']]
     elif r['kind'] == 'special':
         acc = special_worker(r['job'])
+    elif r['kind'] == 'reader':
+        acc = reader_worker([[tuple(r['job'])]])
     elif r['kind'] == 'amp':
         j = r['job']
         acc = amp_worker((j[0], j[1], bytes.fromhex(j[2]), j[3]))
